@@ -174,11 +174,19 @@ func runScenario(d *driver, kind string) {
 			if !d.alive(li) {
 				prev := li
 				li = d.newInstanceLike(prev)
-				// crash during recovery itself, sometimes
-				if d.r.Intn(3) == 0 {
+				// crash during recovery itself, sometimes; or storage/lock operations of the recovery FAIL (the staging
+				// bundle of the committed tree cannot be fetched: the instance must refuse to start — seed C01-6)
+				switch d.r.Intn(3) {
+				case 0:
 					d.crashWithin(li, d.r.Intn(8))
+				case 1:
+					li.in.plan = d.planRandom(0.3)
+					d.stats["recovery-with-faults"]++
 				}
 				li = d.restartWith(prev, li, d.r.Intn(2) == 0)
+				if li != nil {
+					li.in.plan = nil
+				}
 				continue
 			}
 			d.submitSome(li, 1+d.r.Intn(4))
